@@ -12,7 +12,7 @@ ROOT = os.path.dirname(os.path.dirname(os.path.abspath(__file__)))
 HARNESS_ERROR = 3
 
 TIER_CFG = {
-    "quick": dict(timeout_ms=20000, max_paths=3000, deadline_s=240, models_per_label=4),
+    "quick": dict(timeout_ms=40000, max_paths=3000, deadline_s=420, models_per_label=4),
     "thorough": dict(timeout_ms=120000, max_paths=60000, deadline_s=1500, models_per_label=8),
 }
 
